@@ -66,6 +66,8 @@ var cfgs = []cfg{
 	{"ec384-cose-ecdh384-cbc", "ec384", protocol.CoseKeyEnc, kex.ECDH384Suite, kex.CoseAes256CbcCipher, 1, true},
 	{"rsa2048-x5chain-dhkex14-ctr", "rsa2048restr", protocol.X5ChainKeyEnc, kex.DHKEXid14Suite, kex.CoseAes128CtrCipher, 1, false},
 	{"rsapss3072-x509-asymkex3072-gcm256", "rsapss3072", protocol.X509KeyEnc, kex.ASYMKEX3072Suite, kex.A256GcmCipher, 1, true},
+	{"ec256-x5chain-ecdh256-cbc128-hops3", "ec256", protocol.X5ChainKeyEnc, kex.ECDH256Suite, kex.CoseAes128CbcCipher, 3, true},
+	{"rsapkcs3072-cose-dhkex15-ctr256", "rsapkcs3072", protocol.CoseKeyEnc, kex.DHKEXid15Suite, kex.CoseAes256CtrCipher, 2, false},
 }
 
 func cfgsFor(tier string) []cfg {
@@ -1003,6 +1005,10 @@ func runFamily(fam string) func(ctx *workers.Ctx, tier string, lo, hi int) {
 				}
 			}
 			ctx.Distinct(fmt.Sprintf("%s|%s|%d|%s|%s", fam, s.Proto, s.Type, s.Dir, outcome))
+			ctx.Extra["protocol_messages_exchanged"] += int64(max(res.rounds, 1))
+			if (i-lo)%997 == 0 {
+				ctx.Sample(map[string]any{"site": where, "outcome": outcome, "delivered_hex": mutHex, "client_error": fmt.Sprint(res.err)})
+			}
 		}
 	}
 }
@@ -1079,6 +1085,12 @@ func main() {
 	for _, f := range families {
 		res := workers.Run(f, r.Tier, workers.Options{SingleProc: false, CaseTimeout: 120 * time.Second, Deadline: deadline})
 		r.Evaluations.Add(res.Evals)
+		r.States.Add(res.Evals) // one protocol run per case: the state reached through the honest history plus one delivery
+		r.Transitions.Add(res.Extra["protocol_messages_exchanged"])
+		r.Traces.Add(res.Evals)
+		for _, smp := range res.Samples {
+			r.Sample(6, smp)
+		}
 		r.Set("cases_"+f.Name, res.Evals)
 		for k := range res.Distinct {
 			r.Distinct(k)
